@@ -1823,6 +1823,430 @@ Proof.
     + apply (w2_on_curve_of_sq c x _ Ha). exact E.
 Qed.
 
+(* ---- Fp2 square root is complete (p = 3 mod 4: -1 is a non-residue) ----------------------------- *)
+
+Lemma neg1_nonresidue p s : prime p -> p mod 4 = 3 -> ~ eqm p (s * s) (-1).
+Proof.
+  intros Hp H4 E. pose proof (prime_ge_2 _ Hp) as Hp2.
+  pose proof (Z.div_mod p 4 ltac:(lia)) as D. rewrite H4 in D. set (k := p / 4) in *.
+  assert (Hk : 0 <= k) by (unfold k; apply Z.div_pos; lia).
+  destruct (Z.eq_dec (s mod p) 0) as [S0|S0].
+  - assert (E0 : eqm p (s * s) 0).
+    { unfold eqm. rewrite Zmult_mod, S0. reflexivity. }
+    rewrite E0 in E. unfold eqm in E. rewrite Zmod_0_l in E.
+    replace (-1) with (p - 1 + (-1) * p) in E by ring. rewrite Z_mod_plus_full, Z.mod_small in E by lia. lia.
+  - assert (F : (s mod p) ^ (p - 1) mod p = 1).
+    { apply Z_fermat; [exact Hp|]. apply Zgcd_1_rel_prime. apply rel_prime_le_prime; [exact Hp|].
+      pose proof (Z.mod_pos_bound s p ltac:(lia)). lia. }
+    rewrite <- Zpower_mod in F by lia.
+    replace (p - 1) with (2 * (2 * k + 1)) in F by lia.
+    rewrite Z.pow_mul_r, Z.pow_2_r in F by lia.
+    assert (E' : eqm p ((s * s) ^ (2 * k + 1)) ((-1) ^ (2 * k + 1))) by (apply pow_eqm; [lia|exact E]).
+    unfold eqm in E'. rewrite F in E'.
+    replace ((-1) ^ (2 * k + 1)) with (-1) in E'.
+    2:{ rewrite Z.pow_add_r, Z.pow_mul_r, Z.pow_1_r by lia. change ((-1) ^ 2) with 1. rewrite Z.pow_1_l by lia. reflexivity. }
+    replace (-1) with (p - 1 + (-1) * p) in E' by ring. rewrite Z_mod_plus_full, Z.mod_small in E' by lia. lia.
+Qed.
+
+(* a non-zero multiple of -1 times a square is not a square *)
+Lemma neg_sq_nonresidue p w s : prime p -> p mod 4 = 3 -> 0 < w < p -> ~ eqm p (s * s) (- (w * w)).
+Proof.
+  intros Hp H4 Hw E. pose proof (zp_inv_correct p w Hp Hw) as Hi. set (i := zp_inv p w) in *.
+  assert (Hi' : eqm p (w * i) 1).
+  { unfold eqm. rewrite Hi. symmetry. apply one_mod. pose proof (prime_ge_2 _ Hp). lia. }
+  apply (neg1_nonresidue p (s * i) Hp H4).
+  replace (s * i * (s * i)) with (s * s * (i * i)) by ring. rewrite E.
+  replace (- (w * w) * (i * i)) with (- ((w * i) * (w * i))) by ring. rewrite Hi'. reflexivity.
+Qed.
+
+Record w2codec_ok (c : w2codec) : Prop := mk_w2codec_ok {
+  ok2_prime : prime (w2c_p c);
+  ok2_p4 : w2c_p c mod 4 = 3;
+  ok2_e : (1 <= w2c_e c)%nat;
+  ok2_m : w2c_p c - 1 = 2 ^ Z.of_nat (w2c_e c) * (2 * w2c_g c + 1);
+  ok2_g : 0 <= w2c_g c;
+  ok2_rou : sq_iter (w2c_p c) (w2c_e c - 1) (w2c_rou c) = w2c_p c - 1;
+  ok2_len : w2c_p c <= 256 ^ Z.of_nat (w2c_len c);
+  ok2_a : w2_a (w2c c) = (0, 0)
+}.
+
+Definition z2_canon (p : Z) (y : z2) : Prop := 0 <= fst y < p /\ 0 <= snd y < p.
+
+Lemma mulm_range p a b : 0 < p -> 0 <= mulm p a b < p.
+Proof. intros. unfold mulm. apply Z.mod_pos_bound. lia. Qed.
+
+Section Fp2Sqrt.
+  Variable c : w2codec.
+  Hypothesis OK : w2codec_ok c.
+  Let p := w2c_p c.
+  Let Hp : prime p := ok2_prime c OK.
+  Let Hp2 : 2 <= p := prime_ge_2 _ Hp.
+  Let H4 : p mod 4 = 3 := ok2_p4 c OK.
+
+  Lemma p_gt2 : 2 < p.
+  Proof. destruct (Z.eq_dec p 2) as [E|E]; [|lia]. pose proof H4 as H. rewrite E in H. discriminate. Qed.
+
+  (* base-field square root: finds a root of w^2, which is w or -w; fails on non-squares *)
+  Lemma sqp_complete w : 0 <= w < p ->
+    exists s, w2c_sqrt_p c (mulm p w w) = Some s /\ (s = w \/ s = negm p w).
+  Proof.
+    intros Hw.
+    destruct (ts_sqrt_complete p (w2c_e c) (w2c_g c) (w2c_rou c) Hp (ok2_e c OK) (ok2_m c OK) (ok2_g c OK) (ok2_rou c OK) w Hw)
+      as [s Hs].
+    exists s. split; [exact Hs|].
+    assert (Hp0 : 0 < p) by lia.
+    pose proof (ts_sqrt_range p _ _ _ _ _ Hp0 Hs) as Hr. apply ts_sqrt_eqm in Hs.
+    apply prime_sq_eq; try assumption. rewrite Hs. unfold mulm. apply mod_eqm.
+  Qed.
+
+  Lemma sqp_of_eqm w v : 0 <= w < p -> 0 <= v < p -> eqm p v (w * w) ->
+    exists s, w2c_sqrt_p c v = Some s /\ (s = w \/ s = negm p w).
+  Proof.
+    intros Hw Hv E. assert (v = mulm p w w).
+    { unfold mulm. unfold eqm in E. rewrite <- E. symmetry. apply Z.mod_small. exact Hv. }
+    subst v. now apply sqp_complete.
+  Qed.
+
+  Lemma sqp_none w v : 0 < w < p -> eqm p v (- (w * w)) -> w2c_sqrt_p c v = None.
+  Proof.
+    intros Hw E. destruct (w2c_sqrt_p c v) as [s|] eqn:Hs; [|reflexivity]. exfalso.
+    apply ts_sqrt_eqm in Hs. fold p in Hs. rewrite E in Hs.
+    exact (neg_sq_nonresidue p w s Hp H4 Hw Hs).
+  Qed.
+
+  Lemma negm_eqm x : eqm p (negm p x) (- x).
+  Proof. unfold negm. apply mod_eqm. Qed.
+
+  Lemma half_eqm : eqm p (2 * zp_inv p (2 mod p)) 1.
+  Proof.
+    pose proof p_gt2. unfold eqm. rewrite <- (Zmult_mod_idemp_l 2).
+    rewrite (zp_inv_correct p (2 mod p) Hp); [symmetry; apply one_mod; lia|].
+    rewrite Z.mod_small by lia. lia.
+  Qed.
+
+  Lemma prod_zero a b : 0 <= a < p -> 0 <= b < p -> eqm p (2 * a * b) 0 -> a = 0 \/ b = 0.
+  Proof.
+    intros Ha Hb E. pose proof p_gt2. unfold eqm in E. rewrite Zmod_0_l in E.
+    apply Z.mod_divide in E; [|lia].
+    replace (2 * a * b) with (2 * (a * b)) in E by ring.
+    apply prime_mult in E; [|exact Hp]. destruct E as [E|E].
+    - destruct E as [k E]. assert (k = 0) by nia. lia.
+    - apply prime_mult in E; [|exact Hp]. destruct E as [[k E]|[k E]]; [left|right]; assert (k = 0) by nia; lia.
+  Qed.
+
+  Theorem fp2_sqrt_complete y : z2_canon p y ->
+    exists s, fp2_sqrt c (fmul (K2 c) y y) = Some s /\ (s = y \/ s = fopp (K2 c) y).
+  Proof.
+    destruct y as [y0 y1]. intros [Hy0 Hy1]. cbn [fst snd] in Hy0, Hy1.
+    pose proof p_gt2 as Hp3.
+    unfold K2. fold p. cbn [Fp2 fmul fp2_mul fopp fst snd].
+    set (v0 := (y0 * y0 - y1 * y1) mod p). set (v1 := (y0 * y1 + y1 * y0) mod p).
+    assert (Hv0 : 0 <= v0 < p) by (apply Z.mod_pos_bound; lia).
+    assert (Hv1 : 0 <= v1 < p) by (apply Z.mod_pos_bound; lia).
+    assert (E0 : eqm p v0 (y0 * y0 - y1 * y1)) by apply mod_eqm.
+    assert (E1 : eqm p v1 (2 * y0 * y1)).
+    { unfold v1. rewrite (mod_eqm p). apply eqm_refl_eq. ring. }
+    unfold fp2_sqrt. fold p.
+    destruct (v1 =? 0) eqn:Ev.
+    - apply Z.eqb_eq in Ev. rewrite Ev in E1. symmetry in E1.
+      destruct (prod_zero y0 y1 Hy0 Hy1 E1) as [Z0|Z1].
+      + (* y = y1 u *)
+        subst y0. destruct (Z.eq_dec y1 0) as [->|N1].
+        * (* y = 0 *)
+          assert (v0 = 0) by (unfold v0; reflexivity). rewrite H.
+          destruct (sqp_of_eqm 0 0 ltac:(lia) ltac:(lia) ltac:(reflexivity)) as [s [Hs S]]. rewrite Hs.
+          exists (s, 0). split; [reflexivity|]. left. destruct S as [-> | ->]; [reflexivity|now rewrite negm_0].
+        * assert (N : w2c_sqrt_p c v0 = None).
+          { apply (sqp_none y1); [lia|]. rewrite E0. apply eqm_refl_eq. ring. }
+          rewrite N.
+          destruct (sqp_of_eqm y1 (negm p v0) Hy1 (negm_range p v0 ltac:(lia))) as [s [Hs S]].
+          { rewrite negm_eqm, E0. apply eqm_refl_eq. ring. }
+          rewrite Hs. exists (0, s). split; [reflexivity|].
+          destruct S as [-> | ->]; [left; reflexivity|right]. unfold negm. now rewrite Zmod_0_l.
+      + subst y1.
+        destruct (sqp_of_eqm y0 v0 Hy0 Hv0) as [s [Hs S]].
+        { rewrite E0. apply eqm_refl_eq. ring. }
+        rewrite Hs. exists (s, 0). split; [reflexivity|].
+        destruct S as [-> | ->]; [left; reflexivity|right]. unfold negm. now rewrite Zmod_0_l.
+    - apply Z.eqb_neq in Ev.
+      assert (N0 : y0 <> 0). { intros ->. apply Ev. unfold v1. now rewrite Z.mul_0_l, Z.mul_0_r, Zmod_0_l. }
+      assert (N1 : y1 <> 0). { intros ->. apply Ev. unfold v1. now rewrite Z.mul_0_l, Z.mul_0_r, Zmod_0_l. }
+      set (n := (y0 * y0 + y1 * y1) mod p).
+      assert (Hn : 0 <= n < p) by (apply Z.mod_pos_bound; lia).
+      destruct (sqp_of_eqm n (addm p (mulm p v0 v0) (mulm p v1 v1)) Hn) as [rt [Hrt Srt]].
+      { unfold addm. apply Z.mod_pos_bound. lia. }
+      { unfold_m. pose proof (mod_eqm p) as Hq. rewrite_strat (repeat (outermost Hq)). clear Hq.
+        rewrite E0, E1. unfold n. rewrite (mod_eqm p). apply eqm_refl_eq. ring. }
+      rewrite Hrt. cbv zeta. set (H := zp_inv p (2 mod p)). pose proof half_eqm as EH. fold H in EH.
+      assert (En : eqm p n (y0 * y0 + y1 * y1)) by apply mod_eqm.
+      (* the two candidates *)
+      assert (Cands : (eqm p (mulm p (addm p v0 rt) H) (y0 * y0) /\ eqm p (mulm p (subm p v0 rt) H) (- (y1 * y1))) \/
+                      (eqm p (mulm p (subm p v0 rt) H) (y0 * y0))).
+      { destruct Srt as [-> | ->]; [left; split|right]; unfold_m;
+          pose proof (mod_eqm p) as Hq; (rewrite_strat (repeat (outermost Hq))); clear Hq; rewrite E0, En.
+        - replace ((y0 * y0 - y1 * y1 + (y0 * y0 + y1 * y1)) * H) with (y0 * y0 * (2 * H)) by ring.
+          rewrite EH. apply eqm_refl_eq. ring.
+        - replace ((y0 * y0 - y1 * y1 - (y0 * y0 + y1 * y1)) * H) with (- (y1 * y1) * (2 * H)) by ring.
+          rewrite EH. apply eqm_refl_eq. ring.
+        - replace ((y0 * y0 - y1 * y1 - - (y0 * y0 + y1 * y1)) * H) with (y0 * y0 * (2 * H)) by ring.
+          rewrite EH. apply eqm_refl_eq. ring. }
+      assert (Root : exists r0, (match w2c_sqrt_p c (mulm p (subm p v0 rt) H) with
+                                 | Some sn => Some sn
+                                 | None => w2c_sqrt_p c (mulm p (addm p v0 rt) H) end) = Some r0 /\
+                                (r0 = y0 \/ r0 = negm p y0)).
+      { destruct Cands as [[Cp Cn]|Cn].
+        - assert (Hy1' : 0 < y1 < p) by lia.
+          rewrite (sqp_none y1 (mulm p (subm p v0 rt) H) Hy1' Cn).
+          apply (sqp_of_eqm y0); [exact Hy0|apply mulm_range; lia|exact Cp].
+        - destruct (sqp_of_eqm y0 (mulm p (subm p v0 rt) H) Hy0 (mulm_range p _ _ ltac:(lia)) Cn) as [s [Hs S]].
+          rewrite Hs. exists s. auto. }
+      destruct Root as [r0 [Hr0 Sr0]]. rewrite Hr0.
+      assert (Er : exists sg, sg * sg = 1 /\ eqm p r0 (sg * y0) /\
+                   (sg = 1 /\ r0 = y0 \/ sg = -1 /\ r0 = negm p y0)).
+      { destruct Sr0 as [-> | ->]; [exists 1|exists (-1)]; repeat split; auto.
+        - apply eqm_refl_eq. ring.
+        - rewrite negm_eqm. apply eqm_refl_eq. ring. }
+      destruct Er as [sg [Hsg [Er Cases]]].
+      assert (Hr0r : 0 < r0 < p).
+      { destruct Cases as [[_ ->]|[_ ->]]; [lia|]. rewrite negm_nz by lia. lia. }
+      assert (Hc2 : addm p r0 r0 <> 0).
+      { unfold addm. intros Z. apply Z.mod_divide in Z; [|lia].
+        replace (r0 + r0) with (2 * r0) in Z by ring.
+        apply prime_mult in Z; [|exact Hp]. destruct Z as [[k Z]|[k Z]]; assert (k = 0) by nia; lia. }
+      apply Z.eqb_neq in Hc2. rewrite Hc2. apply Z.eqb_neq in Hc2.
+      set (I := zp_inv p (addm p r0 r0)).
+      assert (E4 : eqm p ((r0 + r0) * I) 1).
+      { assert (R : 0 < addm p r0 r0 < p).
+        { assert (0 <= addm p r0 r0 < p) by (unfold addm; apply Z.mod_pos_bound; lia). lia. }
+        pose proof (zp_inv_correct p _ Hp R) as Hi. fold I in Hi.
+        unfold eqm. rewrite (one_mod p) by lia. rewrite <- Hi. unfold addm. zmod. }
+      assert (EU : eqm p (mulm p I v1) (sg * y1)).
+      { unfold mulm. rewrite (mod_eqm p), E1.
+        replace (I * (2 * y0 * y1)) with ((sg * sg) * (I * (2 * y0 * y1))) by (rewrite Hsg; ring).
+        replace (sg * sg * (I * (2 * y0 * y1))) with (((sg * y0 + sg * y0) * I) * (sg * y1)) by ring.
+        rewrite <- Er, E4. apply eqm_refl_eq. ring. }
+      eexists. split; [reflexivity|].
+      destruct Cases as [[-> ->]|[-> ->]].
+      + left. f_equal. unfold eqm in EU. rewrite Z.mul_1_l in EU.
+        rewrite (Z.mod_small y1 p Hy1) in EU. rewrite <- EU. unfold mulm. now rewrite Zmod_mod.
+      + right. f_equal. unfold eqm in EU. replace (- y1) with (-1 * y1) by ring.
+        rewrite <- EU. unfold mulm. now rewrite Zmod_mod.
+  Qed.
+End Fp2Sqrt.
+
+(* ---- G2 round trips ------------------------------------------------------------------------------ *)
+
+Lemma is_neg_0 p : is_neg p 0 = false.
+Proof. unfold is_neg. rewrite negm_0. reflexivity. Qed.
+
+Lemma is_neg2_flip p y : p mod 2 = 1 -> 0 < p -> z2_canon p y -> y <> (0, 0) ->
+  is_neg2 p (fopp (Fp2 p) y) = negb (is_neg2 p y).
+Proof.
+  intros Hodd Hp [H0 H1] Hn. destruct y as [y0 y1]. cbn [fst snd] in *.
+  unfold is_neg2. cbn [Fp2 fopp fst snd]. fold (negm p y0). fold (negm p y1).
+  destruct (Z.eq_dec y1 0) as [->|N1].
+  - rewrite negm_0, is_neg_0. cbn [Z.eqb orb andb].
+    assert (y0 <> 0) by (intros ->; now apply Hn).
+    apply is_neg_flip; [exact Hodd|lia].
+  - rewrite (is_neg_flip p y1 Hodd) by lia.
+    assert (E1 : (y1 =? 0) = false) by (now apply Z.eqb_neq).
+    assert (E2 : (negm p y1 =? 0) = false).
+    { apply Z.eqb_neq. rewrite negm_nz by lia. lia. }
+    rewrite E1, E2. cbn [andb]. now rewrite !orb_false_r.
+Qed.
+
+Lemma fopp2_invol p y : 0 < p -> z2_canon p y -> fopp (Fp2 p) (fopp (Fp2 p) y) = y.
+Proof.
+  intros Hp [H0 H1]. destruct y as [y0 y1]. cbn [Fp2 fopp fst snd] in *.
+  fold (negm p y0). fold (negm p y1). fold (negm p (negm p y0)). fold (negm p (negm p y1)).
+  now rewrite !negm_invol.
+Qed.
+
+Lemma fopp2_zero p : fopp (Fp2 p) (0, 0) = (0, 0).
+Proof. cbn [Fp2 fopp fst snd]. now rewrite Zmod_0_l. Qed.
+
+Lemma z2_eq_dec (a b : z2) : {a = b} + {a <> b}.
+Proof. decide equality; apply Z.eq_dec. Qed.
+
+Lemma fix_sign2 p s y : p mod 2 = 1 -> 0 < p -> z2_canon p y ->
+  s = y \/ s = fopp (Fp2 p) y ->
+  (if xorb (is_neg2 p s) (is_neg2 p y) then fopp (Fp2 p) s else s) = y.
+Proof.
+  intros Hodd Hp Hy [-> | ->].
+  - now rewrite xorb_nilpotent.
+  - destruct (z2_eq_dec y (0, 0)) as [->|N].
+    + rewrite fopp2_zero, xorb_nilpotent. reflexivity.
+    + rewrite is_neg2_flip by assumption.
+      destruct (is_neg2 p y); cbn [negb xorb]; now apply fopp2_invol.
+Qed.
+
+Section G2RoundTrip.
+  Variable c : w2codec.
+  Hypothesis OK : w2codec_ok c.
+  Hypothesis Hlen1 : (1 <= w2c_len c)%nat.
+  Hypothesis Hflags : 8 * w2c_p c <= 256 ^ Z.of_nat (w2c_len c).
+  Let p := w2c_p c.
+  Let Hp : prime p := ok2_prime c OK.
+  Let Hp2 : 2 <= p := prime_ge_2 _ Hp.
+  Let Hodd : p mod 2 = 1 := p_odd_of_ts p (w2c_e c) (w2c_g c) (ok2_e c OK) (ok2_m c OK).
+
+  Definition w2_canon (P : w2pt) : Prop :=
+    match P with None => True | Some (x, y) => z2_canon p x /\ z2_canon p y end.
+
+  Lemma on_curve2_rhs x y : w2_on_curve (w2c c) (Some (x, y)) = true -> fmul (K2 c) y y = w2_rhs c x.
+  Proof.
+    unfold w2_on_curve, on_curve. rewrite (ok2_a c OK). unfold w2_rhs, K2, w2c_p.
+    destruct x as [x0 x1], y as [y0 y1]. destruct (w2_b (w2c c)) as [b0 b1].
+    cbn [Fp2 feqb fmul fadd fp2_mul fst snd].
+    rewrite !andb_true_iff, !Z.eqb_eq. intros [E0 E1]. f_equal; [rewrite E0|rewrite E1]; zmod.
+  Qed.
+
+  Theorem blsg2_roundtrip_u P :
+    w2_on_curve (w2c c) P = true -> w2_canon P -> w2_in_subgroup c P ->
+    blsg2_dec_u c (blsg2_enc_u c P) = Some P.
+  Proof.
+    intros Hc Hr Hs.
+    assert (Ek : exists k, w2c_len c = S k) by (exists (w2c_len c - 1)%nat; lia).
+    destruct Ek as [k Ek].
+    set (N := 256 ^ Z.of_nat k).
+    assert (HN : 0 < N) by apply pow256_pos.
+    assert (HpN : p <= 32 * N).
+    { fold p in Hflags. rewrite Ek, pow256_S in Hflags. fold N in Hflags. lia. }
+    pose proof (ok2_len c OK) as Hl. fold p in Hl.
+    unfold blsg2_enc_u, blsg2_dec_u. destruct P as [[[x0 x1] [y0 y1]]|].
+    - destruct Hr as [[Hx0 Hx1] [Hy0 Hy1]]. cbn [fst snd] in *.
+      rewrite !app_length, !be_enc_length.
+      replace (w2c_len c + (w2c_len c + (w2c_len c + w2c_len c)))%nat with (4 * w2c_len c)%nat by lia.
+      rewrite Nat.eqb_refl. cbn [negb]. rewrite Ek at 1. rewrite be_enc_cons. fold N. cbn [app].
+      assert (Hxt : 0 <= x1 / N < 32).
+      { split; [apply Z.div_pos; lia|apply Z.div_lt_upper_bound; lia]. }
+      set (t := x1 / N) in *.
+      rewrite (Z.mod_small t 256) by lia.
+      assert (FI : flagI t = 0) by (unfold flagI; rewrite Z.div_small by lia; reflexivity).
+      assert (FC : flagC t = 0) by (unfold flagC; rewrite Z.div_small by lia; reflexivity).
+      assert (FS : flagS t = 0) by (unfold flagS; rewrite Z.div_small by lia; reflexivity).
+      rewrite FI, FC, FS. cbn [Z.eqb]. cbv zeta.
+      rewrite (Z.mod_small t 32) by lia.
+      replace (w2c_len c - 1)%nat with k by lia.
+      rewrite firstn_app_len, skipn_app_len by apply be_enc_length.
+      rewrite firstn_app_len, skipn_app_len by apply be_enc_length.
+      rewrite firstn_app_len, skipn_app_len by apply be_enc_length.
+      rewrite be_val_cons, be_enc_length, (be_val_be_enc_mod k x1). fold N.
+      assert (Hxv : x1 mod N + N * t = x1) by (unfold t; pose proof (Z.div_mod x1 N ltac:(lia)); lia).
+      rewrite Hxv. rewrite !be_val_be_enc by lia. fold p. rewrite !Z.mod_small by lia.
+      unfold w2_set_affine. rewrite (on_curve2_rhs _ _ Hc).
+      destruct (w2_rhs c (x0, x1)) as [a0 a1]. unfold K2 at 1. cbn [Fp2 feqb fst snd]. rewrite !Z.eqb_refl. cbn [andb].
+      match goal with |- (if ?b then _ else _) = _ =>
+        replace b with true; [reflexivity|symmetry; apply w2_torsion_free_spec; exact Hs] end.
+    - cbn [length]. rewrite zeros_length. replace (S (4 * w2c_len c - 1)) with (4 * w2c_len c)%nat by lia.
+      rewrite Nat.eqb_refl. cbn [negb]. change (flagC 64) with 0. change (flagS 64) with 0.
+      change (flagI 64) with 1. cbn [Z.eqb Pos.eqb]. change (64 mod 32) with 0. cbn [Z.eqb andb].
+      rewrite all_zero_zeros. reflexivity.
+  Qed.
+
+  Theorem blsg2_roundtrip_c P :
+    w2_on_curve (w2c c) P = true -> w2_canon P -> w2_in_subgroup c P ->
+    blsg2_dec_c c (blsg2_enc_c c P) = Some P.
+  Proof.
+    intros Hc Hr Hs.
+    assert (Ek : exists k, w2c_len c = S k) by (exists (w2c_len c - 1)%nat; lia).
+    destruct Ek as [k Ek].
+    set (N := 256 ^ Z.of_nat k).
+    assert (HN : 0 < N) by apply pow256_pos.
+    assert (Hhi : 2 ^ (8 * Z.of_nat (w2c_len c) - 1) = 128 * N).
+    { rewrite Ek, Nat2Z.inj_succ. replace (8 * Z.succ (Z.of_nat k) - 1) with (7 + 8 * Z.of_nat k) by lia.
+      rewrite Z.pow_add_r, Z.pow_mul_r by lia. reflexivity. }
+    assert (HpN : p <= 32 * N).
+    { fold p in Hflags. rewrite Ek, pow256_S in Hflags. fold N in Hflags. lia. }
+    pose proof (ok2_len c OK) as Hl. fold p in Hl.
+    unfold blsg2_enc_c, blsg2_dec_c. cbv zeta. rewrite Hhi.
+    replace (128 * N / 2) with (64 * N) by (replace (128 * N) with (64 * N * 2) by ring; now rewrite Z.div_mul).
+    replace (128 * N / 4) with (32 * N) by (replace (128 * N) with (32 * N * 4) by ring; now rewrite Z.div_mul).
+    destruct P as [[[x0 x1] y]|].
+    - destruct Hr as [[Hx0 Hx1] Hy]. cbn [fst snd] in Hx0, Hx1.
+      set (f := if is_neg2 (w2c_p c) y then 32 * N else 0).
+      rewrite app_length, !be_enc_length.
+      replace (w2c_len c + w2c_len c)%nat with (2 * w2c_len c)%nat by lia.
+      rewrite Nat.eqb_refl. cbn [negb]. rewrite Ek at 1. rewrite be_enc_cons. fold N. cbn [app].
+      set (fb := if is_neg2 (w2c_p c) y then 1 else 0).
+      assert (Hf : f = fb * 32 * N) by (unfold f, fb; destruct (is_neg2 _ _); ring).
+      assert (Hfb : fb = 0 \/ fb = 1) by (unfold fb; destruct (is_neg2 _ _); auto).
+      assert (Hdiv : (x1 + 128 * N + f) / N = x1 / N + (128 + 32 * fb)).
+      { rewrite Hf. replace (x1 + 128 * N + fb * 32 * N) with (x1 + (128 + 32 * fb) * N) by ring.
+        now rewrite Z.div_add by lia. }
+      assert (Hxt : 0 <= x1 / N < 32).
+      { split; [apply Z.div_pos; lia|apply Z.div_lt_upper_bound; lia]. }
+      set (t := x1 / N) in *.
+      assert (Htop : ((x1 + 128 * N + f) / N) mod 256 = 128 + 32 * fb + t).
+      { rewrite Hdiv. rewrite Z.mod_small by lia. ring. }
+      rewrite Htop.
+      assert (FC : flagC (128 + 32 * fb + t) = 1).
+      { unfold flagC. replace (128 + 32 * fb + t) with ((32 * fb + t) + 1 * 128) by ring.
+        rewrite Z.div_add, Z.div_small by lia. reflexivity. }
+      assert (FI : flagI (128 + 32 * fb + t) = 0).
+      { unfold flagI. replace (128 + 32 * fb + t) with ((32 * fb + t) + 2 * 64) by ring.
+        rewrite Z.div_add, Z.div_small by lia. reflexivity. }
+      assert (FS : flagS (128 + 32 * fb + t) = fb).
+      { unfold flagS. replace (128 + 32 * fb + t) with (t + (4 + fb) * 32) by ring.
+        rewrite Z.div_add, Z.div_small by lia. destruct Hfb as [-> | ->]; reflexivity. }
+      assert (FM : (128 + 32 * fb + t) mod 32 = t).
+      { replace (128 + 32 * fb + t) with (t + (4 + fb) * 32) by ring.
+        rewrite Z_mod_plus_full. apply Z.mod_small. lia. }
+      rewrite FC, FI, FS, FM. cbn [Z.eqb Pos.eqb negb].
+      replace (w2c_len c - 1)%nat with k by lia.
+      rewrite firstn_app_len, skipn_app_len by apply be_enc_length.
+      rewrite be_val_cons, be_enc_length, (be_val_be_enc_mod k). fold N.
+      assert (Hxv : (x1 + 128 * N + f) mod N + N * t = x1).
+      { rewrite Hf. replace (x1 + 128 * N + fb * 32 * N) with (x1 + (128 + 32 * fb) * N) by ring.
+        rewrite Z_mod_plus_full. unfold t. pose proof (Z.div_mod x1 N ltac:(lia)). lia. }
+      rewrite Hxv. rewrite be_val_be_enc by lia. fold p. rewrite !Z.mod_small by lia.
+      rewrite <- (on_curve2_rhs _ _ Hc).
+      destruct (fp2_sqrt_complete c OK y Hy) as [s [Es Ss]]. rewrite Es.
+      assert (Sg : (fb =? 1) = is_neg2 p y).
+      { unfold fb. fold p. destruct (is_neg2 p y); reflexivity. }
+      rewrite Sg. unfold K2. fold p.
+      pose proof (fix_sign2 p s y Hodd ltac:(lia) Hy Ss) as FS2.
+      match goal with |- context [Some (x0, x1, ?Y)] => replace Y with y by (symmetry; exact FS2) end.
+      match goal with |- (if ?b then _ else _) = _ =>
+        replace b with true; [reflexivity|symmetry; apply w2_torsion_free_spec; exact Hs] end.
+    - rewrite app_length, be_enc_length, zeros_length.
+      replace (w2c_len c + w2c_len c)%nat with (2 * w2c_len c)%nat by lia.
+      rewrite Nat.eqb_refl. cbn [negb]. rewrite Ek at 1. rewrite be_enc_cons. fold N. cbn [app].
+      replace (128 * N + 64 * N) with (0 + 192 * N) by ring.
+      rewrite Z.div_add, Z.div_0_l by lia. cbn [Z.add]. change (192 mod 256) with 192.
+      change (flagC 192) with 1. change (flagI 192) with 1. change (flagS 192) with 0.
+      cbn [Z.eqb Pos.eqb negb]. change (192 mod 32) with 0. cbn [Z.eqb andb].
+      assert (AZ : all_zero (be_enc k (192 * N) ++ zeros (w2c_len c)) = true).
+      { unfold N, be_enc. rewrite le_enc_mult, rev_zeros. unfold all_zero. rewrite forallb_app.
+        fold (all_zero (zeros k)). fold (all_zero (zeros (w2c_len c))). now rewrite !all_zero_zeros. }
+      rewrite AZ. reflexivity.
+  Qed.
+End G2RoundTrip.
+
+Lemma blsg2_codec_ok : prime bls12381_p -> w2codec_ok blsg2_codec.
+Proof.
+  intros Hp. constructor;
+  [ exact Hp
+  | vm_compute; reflexivity
+  | vm_compute; repeat constructor
+  | vm_compute; reflexivity
+  | vm_compute; discriminate
+  | vm_compute; reflexivity
+  | vm_compute; discriminate
+  | reflexivity ].
+Qed.
+
+Theorem blsg2_roundtrip_instance P : prime bls12381_p ->
+  w2_on_curve (w2c blsg2_codec) P = true -> w2_canon blsg2_codec P -> w2_in_subgroup blsg2_codec P ->
+  blsg2_dec_c blsg2_codec (blsg2_enc_c blsg2_codec P) = Some P /\
+  blsg2_dec_u blsg2_codec (blsg2_enc_u blsg2_codec P) = Some P.
+Proof.
+  intros Hp Hc Hr Hs. pose proof (blsg2_codec_ok Hp) as OK.
+  assert (L : (1 <= w2c_len blsg2_codec)%nat) by (vm_compute; repeat constructor).
+  assert (F : 8 * w2c_p blsg2_codec <= 256 ^ Z.of_nat (w2c_len blsg2_codec)) by (vm_compute; discriminate).
+  split; [apply blsg2_roundtrip_c|apply blsg2_roundtrip_u]; auto.
+Qed.
+
 (* ---- non-vacuity: a toy curve over F_11 meets every hypothesis ---------------------------------- *)
 
 Lemma prime_11 : prime 11.
